@@ -349,6 +349,11 @@ pub fn check(res: &RunResult, cfg: &NodeCfg, model: &mut Model) -> Findings {
             f.items.push(("C17", "emitted-datagram-undecodable".into(), format!("node emits a datagram its own decoder rejects: {:?}", String::from_utf8_lossy(&d.bytes[..d.bytes.len().min(80)]))));
         }
     }
+    // a datagram that could not be handed to the node (nothing is dropped in these scenarios): its socket is gone
+    if let Some(d) = res.wire.iter().find(|d| d.dst == node && d.src != node && d.delivered_ms.is_empty() && !matches!(d.fate, Some(crate::sim::Fate::Drop)) && d.sent_ms + 200 < res.end_ms) {
+        let p = krpc::parse(&d.bytes);
+        f.items.push(("C05", "node-stopped-receiving".into(), format!("{} sent by {} at {} ms cannot be delivered: the node has closed its socket (it stopped)", p.canon_key(), d.src, d.sent_ms)));
+    }
     let (ex, orphans) = exchanges(res, node);
     for (d, p) in &orphans {
         f.items.push(("C05", "unsolicited-response-or-error".into(), format!("node sends {} to {} at {} ms that answers no query", p.canon_key(), d.dst, d.sent_ms)));
